@@ -13,6 +13,13 @@ import (
 
 // ---------- HTTP/2 arm (C18): reference peers on both sides of MOSN ----------
 
+// fastH2Opts: a peer whose flow control never is the bottleneck (arms about something else than C18).
+func fastH2Opts(ch *sim.Choices, who string) peers.H2Opts {
+	return peers.H2Opts{InitWin: 1 << 24, MaxFrame: 16384, TableSize: 4096, ConnExtra: 1 << 24, Eager: true,
+		Grant: []uint32{1 << 20}, GrantGap: []time.Duration{0}, Chunk: []int{0},
+		Pad: ch.Bool("params", who+":pad"), SplitHdr: ch.Bool("params", who+":splithdr")}
+}
+
 func drawH2Opts(ch *sim.Choices, who string) peers.H2Opts {
 	o := peers.H2Opts{}
 	o.InitWin = pickFrom(ch, "params", who+":initwin", []uint32{65535, 0, 1, 7, 100, 1000, 16384, 65536, 1 << 20, 1<<31 - 1})
@@ -62,8 +69,8 @@ func (w *Proxy) creditTicker(e *peers.H2End) {
 		if e.Closed || e.Err != nil {
 			return
 		}
-		e.Credit()
-		if e.OpenStreams() > 0 {
+		// (if nothing had to be granted every window is wide enough for MOSN to send: the next DATA re-arms)
+		if e.Credit() && e.OpenStreams() > 0 {
 			arm()
 		}
 	}
@@ -112,7 +119,11 @@ func (w *Proxy) setupH2Client(ci int, reqIdxP *int) {
 	s, ch, p := w.S, w.S.Ch, w.P
 	reqIdx := *reqIdxP
 	defer func() { *reqIdxP = reqIdx }()
-	cl := peers.NewH2Client(s, w.H, fmt.Sprintf("cl%d", ci), drawH2Opts(ch, fmt.Sprintf("h2cl%d", ci)))
+	opts := drawH2Opts
+	if p.ShutdownMs > 0 {
+		opts = fastH2Opts
+	}
+	cl := peers.NewH2Client(s, w.H, fmt.Sprintf("cl%d", ci), opts(ch, fmt.Sprintf("h2cl%d", ci)))
 	s.Logf("h2 client %s opts %+v", cl.Name, cl.O)
 	cl.Viol = w.h2Viol
 	w.creditTicker(cl.H2End)
@@ -125,6 +136,9 @@ func (w *Proxy) setupH2Client(ci int, reqIdxP *int) {
 		tok := fmt.Sprintf("%016x", sim.Mix(ch.Seed^0x746f6b656e, uint64(reqIdx)))
 		r := &peers.ReqRec{Token: tok, Proto: "http2", Extra: map[string]string{}}
 		r.Script = []peers.Action{{Kind: "reply", Delay: pickFrom(ch, "work", "delay18", []time.Duration{0, time.Millisecond, 20 * time.Millisecond})}}
+		if p.ShutdownMs > 0 {
+			r.Script = []peers.Action{w.drawAction(ch)}
+		}
 		m := &peers.H1Msg{IsReq: true}
 		m.Method = pickFrom(ch, "work", "method", []string{"POST", "GET", "PUT"})
 		m.Target = pickFrom(ch, "work", "target18", []string{"/", "/a/b", "/a?x=1&y=2", "/A/B/c.html?q=%E4%BD%A0", "/long/" + strings.Repeat("p", 300)})
@@ -175,6 +189,9 @@ func (w *Proxy) setupH2Client(ci int, reqIdxP *int) {
 					c.SegMode = seg
 					cl.Start(c)
 				}
+			}
+			if w.sigAt > 0 && cl.Conn != nil && !cl.GoAway && !cl.Closed {
+				s.Faults["w:h2_request_raced_goaway"]++ // sent after the stop request by a client that has not seen the GOAWAY yet
 			}
 			cl.SendReq(r)
 		})
